@@ -219,6 +219,7 @@ func runC36(env *kernel.Env, concurrent bool) {
 		return "?"
 	}
 	rounds := T.Range(1, 4)
+	lostQuestions := ""
 	for round := 0; round < rounds && !env.Failed(); round++ {
 		// the overlap group of this round
 		var members []*c36Sess
@@ -250,10 +251,27 @@ func runC36(env *kernel.Env, concurrent bool) {
 			// the group runs three times (same sessions, same statements): only the
 			// last pass is judged, the first two only add chances for the detector,
 			// so that a replay in a fresh process meets the race again
+			// calibration: the same statements once, one session after the other; the global
+			// Questions counter must grow by the same amount in every concurrent pass (it is
+			// bumped once per statement before anything can fail)
+			questions := func() int64 {
+				var n int64
+				fmt.Sscan(statusVar(setup, "Questions"), &n)
+				return n
+			}
+			q0 := questions()
+			for _, x := range members {
+				x.got, x.panicked = nil, ""
+				for k := range x.queue {
+					runOne(x, k)
+				}
+			}
+			perPass := questions() - q0
 			for pass := 0; pass < 3; pass++ {
 				for _, x := range members {
 					x.got, x.panicked = nil, ""
 				}
+				qStart := questions()
 				var wg sync.WaitGroup
 				start := make(chan struct{})
 				for _, x := range members {
@@ -268,6 +286,9 @@ func runC36(env *kernel.Env, concurrent bool) {
 				}
 				close(start)
 				wg.Wait()
+				if got := questions() - qStart; got != perPass && lostQuestions == "" {
+					lostQuestions = fmt.Sprintf("round %d pass %d: %d sessions ran their statements at once and the global status counter Questions grew by %d; the same statements run one session after the other grow it by %d", round, pass, len(members), got, perPass)
+				}
 			}
 			env.Fault("overlap-group")
 		} else {
@@ -292,8 +313,9 @@ func runC36(env *kernel.Env, concurrent bool) {
 		for _, x := range members {
 			var line []string
 			if concurrent {
-				// the session's model goes through the two unjudged passes first
-				for pass := 0; pass < 2; pass++ {
+				// the session's model goes through the three unjudged passes first (the
+				// sequential calibration pass and two concurrent ones)
+				for pass := 0; pass < 3; pass++ {
 					for _, qi := range x.queue {
 						expect(x, qi)
 					}
@@ -340,6 +362,12 @@ func runC36(env *kernel.Env, concurrent bool) {
 		if env.Failed() {
 			break
 		}
+		if concurrent && lostQuestions != "" {
+			// seen, but a handful of statements per pass rarely lose an update again when the
+			// run is replayed: counted here, judged by the counter storm at the end of the run
+			env.Probe("questions-counter-differs-in-a-pass")
+			lostQuestions = ""
+		}
 		if concurrent {
 			if rep := raceLogNew(); rep != "" {
 				a, b := raceSites(rep)
@@ -361,6 +389,39 @@ func runC36(env *kernel.Env, concurrent bool) {
 			env.Fail("registries-consistent", "process-list-lost-connections", "the process list shows %d connections, %d are open", len(pl.Processes()), nsess)
 		}
 		env.Nontrivial()
+	}
+	if concurrent && !env.Failed() && T.Bool(1, 2) {
+		// shared counters under many short statements at once: every session runs a cheap
+		// statement in a tight loop; the global Questions counter must account for each
+		// (a read-modify-write instead of an atomic add loses some)
+		const each = 400
+		var n0 int64
+		fmt.Sscan(statusVar(setup, "Questions"), &n0)
+		var wg sync.WaitGroup
+		start := make(chan struct{})
+		for _, x := range sess {
+			wg.Add(1)
+			go func(x *c36Sess) {
+				defer wg.Done()
+				defer func() { _ = recover() }()
+				<-start
+				for i := 0; i < each; i++ {
+					x.exec("SELECT 1")
+				}
+			}(x)
+		}
+		close(start)
+		wg.Wait()
+		var n1 int64
+		fmt.Sscan(statusVar(setup, "Questions"), &n1)
+		env.Kind("counter-storm")
+		env.Fault("counter-storm")
+		if rep := raceLogNew(); rep != "" {
+			a, b := raceSites(rep)
+			env.Fail("no-data-race", "data-race:"+a+"<->"+b, "the race detector reported a data race while %d sessions ran SELECT 1 in a loop:\n%s", nsess, trimRaceReport(rep))
+		} else if n1-n0 != int64(each*nsess) {
+			env.Fail("registries-consistent", "status-counter-lost-update", "%d sessions ran SELECT 1 %d times each at once; the global status counter Questions grew by %d, not %d", nsess, each, n1-n0, each*nsess)
+		}
 	}
 	for _, x := range sess {
 		pl.RemoveConnection(x.s.ID)
